@@ -1012,11 +1012,6 @@ func (vfs *MemFS) rename(oldpath, newpath string) (again bool, err error) {
 		return false, &os.LinkError{Op: op, Old: oldpath, New: newpath, Err: vfs.err.OpNotPermitted}
 	}
 
-	if oIsDir && nParent != oParent && !oWritable {
-		// a directory that gets a new parent is written to (its ".." entry changes).
-		return false, &os.LinkError{Op: op, Old: oldpath, New: newpath, Err: vfs.err.PermDenied}
-	}
-
 	if nChild != nil {
 		nChild.Lock()
 		nUid, _ := nChild.owner()
@@ -1028,7 +1023,6 @@ func (vfs *MemFS) rename(oldpath, newpath string) (again bool, err error) {
 	}
 
 	if nChild != nil {
-		_, oIsDir := oChild.(*dirNode)
 		_, nIsDir := nChild.(*dirNode)
 
 		var err error
@@ -1049,7 +1043,14 @@ func (vfs *MemFS) rename(oldpath, newpath string) (again bool, err error) {
 
 			return false, &os.LinkError{Op: op, Old: oldpath, New: newpath, Err: err}
 		}
+	}
 
+	if oIsDir && nParent != oParent && !oWritable {
+		// a directory that gets a new parent is written to (its ".." entry changes).
+		return false, &os.LinkError{Op: op, Old: oldpath, New: newpath, Err: vfs.err.PermDenied}
+	}
+
+	if nChild != nil {
 		// a file or a symbolic link is replaced.
 		nChild.Lock()
 		nChild.delete()
